@@ -183,6 +183,8 @@ def main() -> int:
             meta = os.path.join(sd, d, "meta.json")
             if os.path.exists(meta):
                 m = json.load(open(meta))
+                if m.get("neutralised_by_fix"):
+                    continue       # no longer breaks the property on the repaired tree
                 todo.append((m["property"], d, os.path.join(sd, d, "patch.diff"), None, None))
     else:
         todo = list(MUTANTS)
